@@ -23,13 +23,14 @@ TECHNIQUE = ("model-based generation of per-poll schema-version snapshots and ho
              "through the real Session; exact-rational reference of the polling loop as oracle")
 RULE = ("A case is: 1-4 peers with an initial state each (up / marked down / unknown), a max_schema_agreement_wait, and a list "
         "of 1-6 poll rounds; round k fixes what the k-th poll sees: the local schema version, per peer a version / null / no "
-        "row, optionally a row of a host that is not in the metadata, whether the node stays silent for that poll (client "
+        "row (the local version may be null too, up to nobody reporting any version), optionally a row of a host that is not in the metadata, whether the node stays silent for that poll (client "
         "timeout), and host-state flips applied just before it; the last round repeats.  Two drivers: "
         "ControlConnection.wait_for_schema_agreement() directly, and a CREATE statement answered with a SCHEMA_CHANGE result "
         "(schema_metadata_enabled on/off) whose ResponseFuture.is_schema_agreed is read.  Non-trivial: at least 2 polls, the "
         "first disagreeing, and some peer that is marked down holds a different version in some round.  Distinct by digest.")
 ASSUMPTIONS = ["network, clock, executor are simulated (sim/); Cluster, ControlConnection, Session, ResponseFuture, Metadata are real",
-               "a snapshot always carries a local schema version; peers reporting null are not counted (they report nothing)",
+               "nodes reporting a null schema version are not counted (they report nothing); a poll in which no live node "
+               "reports any version (null local version included) is not agreement: there is no single version",
                "waits are not multiples of the 0.2 s poll interval; where a client timeout ends exactly at the wait budget one "
                "more poll is accepted either way (float rounding of the virtual clock)",
                "host states are set on the Host objects (set_up/set_down/is_up=None) without running the up/down machinery"]
@@ -45,7 +46,9 @@ def ver(i):
 
 
 def agree(rnd, states, npeers):
-    vs = {rnd["local"]}
+    vs = set()
+    if rnd["local"] is not None:
+        vs.add(rnd["local"])       # a control node that reports no schema version contributes nothing
     for p in range(npeers):
         v = rnd["peers"][p]
         if v in ("absent", None):
@@ -166,7 +169,8 @@ def _run(case, ctx, sim):
             r = rounds[min(k, len(rounds) - 1)]
             if r["silent"]:
                 return ("drop",)
-            node._rows(conn, req, Node.LOCAL_COLS, [dict(node.local_row(), schema_version=ver(r["local"]))], "local")
+            node._rows(conn, req, Node.LOCAL_COLS, [dict(node.local_row(), schema_version=(
+                None if r["local"] is None else ver(r["local"])))], "local")
             return ("drop",)
         if qu.startswith("CREATE "):
             node.reply(conn, req, "RESULT", wire.result_schema_change(req["version"], "CREATED", "KEYSPACE", "ks1"))
@@ -221,6 +225,11 @@ def _run(case, ctx, sim):
                 if p < npeers:
                     states[p] = s
         seen.append(None if r["silent"] else agree(r, states, npeers))
+        if not r["silent"]:
+            if r["local"] is None:
+                ctx.label("poll:local-version-null")
+            if r["local"] is None and not any(r["peers"][p] not in ("absent", None) and states[p] != "down" for p in range(npeers)):
+                ctx.label("poll:no-version-known")
     first_agree = next((k for k, a in enumerate(seen) if a), None)
     wait = case["wait"]
     if verdict not in (True, False):
@@ -307,6 +316,13 @@ def s_round(draw, first):
     other = (local + 1 + draw(st.integers(0, 1))) % 3
     same = [local, local, local, local] if not first else [local, local]
     peers = [draw(st.sampled_from(same + [other, other, None, "absent"])) for _ in range(4)]
+    shape = draw(st.sampled_from(["plain"] * 6 + ["local-null", "nobody-reports"]))
+    if shape == "local-null":
+        local = None               # e.g. a control node that is still starting: only the peers report
+    elif shape == "nobody-reports":
+        # no participating node reports a version: null everywhere (peers that do report are made 'down' by the caller)
+        local = None
+        peers = [draw(st.sampled_from([None, None, "absent"])) for _ in range(4)]
     return {"local": local, "peers": peers,
             "stranger": draw(st.sampled_from(["absent", "absent", "absent", 1, 2, None])),
             "silent": draw(st.integers(0, 7)) == 0,
@@ -327,6 +343,8 @@ def s_case(draw):
         npeers = case["peers"]
         d = draw(st.integers(0, npeers - 1))
         r0 = case["rounds"][0]
+        if r0["local"] is None:
+            r0["local"] = 0
         other = (r0["local"] + 1) % 3
         case["states0"][d] = "down"
         r0["peers"][d] = other
@@ -341,6 +359,21 @@ def s_case(draw):
                 case["rounds"].append(draw(s_round(False)))
         else:
             r0["local"], r0["peers"][d] = r0["local"], other
+    elif draw(st.integers(0, 3)) == 0:
+        # nobody reports a version in the first k rounds (null local version; peers null, absent or marked down with
+        # whatever version), then the generated rounds follow
+        npeers = case["peers"]
+        k = draw(st.integers(1, 2))
+        for j in range(k):
+            peers = []
+            for p in range(4):
+                if p < npeers and case["states0"][p] == "down":
+                    peers.append(draw(st.sampled_from([None, 0, 1, 2])))
+                else:
+                    peers.append(draw(st.sampled_from([None, None, "absent"])))
+            case["rounds"].insert(j, {"local": None, "peers": peers, "stranger": draw(st.sampled_from(["absent", 1, None])),
+                                      "silent": False, "flip": []})
+        case["rounds"] = case["rounds"][:6]
     return case
 
 
